@@ -8,6 +8,8 @@ import (
 	"encoding/binary"
 	"errors"
 	"fmt"
+	"runtime"
+	"strings"
 	"sync"
 	"sync/atomic"
 	"time"
@@ -450,12 +452,18 @@ func (s *RSim) Run() *RResult {
 		}
 	}
 	if p.DrainUs > 0 && drainDone == nil && !res.InboundClosed {
+		deadline := time.Now().Add(limit)
 		for {
 			got, closed := s.readOne(us(p.DrainUs))
 			if closed {
 				res.InboundClosed = true
 			}
-			if !got {
+			if got {
+				continue
+			}
+			// silence - but is something still on its way? (frames not yet taken by the client, hand-offs
+			// parked in the library or in the group layer: under load they can take longer than DrainUs)
+			if closed || time.Now().After(deadline) || (s.Sock.Pending() == 0 && !handoffPending()) {
 				break
 			}
 		}
@@ -487,6 +495,19 @@ func (s *RSim) Run() *RResult {
 	res.Stalls = int(atomic.LoadInt32(&s.stalls))
 	res.Events = s.snapshot()
 	return res
+}
+
+// handoffPending reports whether a goroutine of the library is still about to hand an inbound
+// message over (parked in pushInbound, or the group layer blocked on its output channel).
+func handoffPending() bool {
+	buf := make([]byte, 1<<20)
+	buf = buf[:runtime.Stack(buf, true)]
+	for _, g := range strings.Split(string(buf), "\n\n") {
+		if strings.Contains(g, "pushInbound.func") || (strings.Contains(g, "knx.serveGroupInbound") && strings.Contains(g, "chan send")) {
+			return true
+		}
+	}
+	return false
 }
 
 // lostAtQuiescence holds the senders back, waits until nothing is in flight and the lock is free,
